@@ -41,21 +41,47 @@ type bfInt struct {
 	s bool  // signed
 }
 
-type bfArray struct {
-	el []bfInt // element values (8-bit)
+// A slice is a window [lo, hi) with capacity end cp of an array object of the
+// heap (obj 0: the nil slice). Array objects keep their elements under the
+// element index and their length under bfLenKey.
+type bfSlice struct {
+	obj        int
+	lo, hi, cp int
 }
 
-type bfSlice struct {
-	root *bfArray
-	lo   int
-	hi   int
-}
+const bfLenKey = -2
 
 type bfPtr struct {
-	obj   int // heap object
-	field int // field index, -1 for the whole cell
-	arr   *bfArray
-	idx   int
+	obj   int // heap object (-1: a package-level variable, not modelled)
+	field int // field or element index, -1 for the whole cell
+}
+
+// newArray creates an array object of n zero bytes.
+func (m *bfMachine) newArray(heap bfHeap, n int) int {
+	m.nextObj++
+	heap[m.nextObj] = map[int]any{bfLenKey: bfConst(uint64(n), 64, true)}
+	return m.nextObj
+}
+
+func bfArrayLen(heap bfHeap, obj int) int {
+	if l, ok := heap[obj][bfLenKey].(bfInt); ok {
+		c, _ := l.concrete()
+		return int(c)
+	}
+	return 0
+}
+
+func bfElem(heap bfHeap, obj, i int) bfInt {
+	if v, ok := heap[obj][i].(bfInt); ok {
+		return v
+	}
+	return bfConst(0, 8, false)
+}
+
+// bfArr: the value of an array of integers (element k under k; missing = zero).
+type bfArr struct {
+	n  int
+	el map[int]any
 }
 
 type bfErr struct{ nonNil bool }
@@ -465,6 +491,14 @@ func (m *bfMachine) value(fr *bfFrame, v ssa.Value) any {
 			if w, s, ok := bfWidth(c.Type()); ok {
 				return bfConst(0, w, s)
 			}
+			if _, isSl := c.Type().Underlying().(*types.Slice); isSl {
+				return bfSlice{}
+			}
+			if at, isArr := c.Type().Underlying().(*types.Array); isArr {
+				if _, _, isInt := bfWidth(at.Elem()); isInt {
+					return bfArr{n: int(at.Len()), el: map[int]any{}}
+				}
+			}
 			return bfUnknown{"zero value of " + c.Type().String()}
 		}
 		w, s, ok := bfWidth(c.Type())
@@ -494,7 +528,14 @@ func (m *bfMachine) value(fr *bfFrame, v ssa.Value) any {
 }
 
 func bfIsModuleFunc(f *ssa.Function) bool {
-	return f != nil && len(f.Blocks) > 0 && f.Pkg != nil && strings.HasPrefix(f.Pkg.Pkg.Path(), modPath)
+	if f == nil || len(f.Blocks) == 0 {
+		return false
+	}
+	pkg := f.Pkg
+	if pkg == nil && f.Origin() != nil {
+		pkg = f.Origin().Pkg // instantiations of generic functions carry no package of their own
+	}
+	return pkg != nil && strings.HasPrefix(pkg.Pkg.Path(), modPath)
 }
 
 // call interprets fn on args.
@@ -577,14 +618,18 @@ func (m *bfMachine) runFrom(fr *bfFrame, heap bfHeap, b *ssa.BasicBlock, start i
 				return m.fail(heap, "explicit panic", true)
 			case *ssa.Store:
 				p, ok := m.value(fr, x.Addr).(bfPtr)
-				if ok && p.arr != nil {
-					return m.fail(heap, "store into the input", false)
-				}
 				if !ok || p.obj < 0 {
 					continue // a store the model does not follow (logging buffers, globals)
 				}
 				if heap[p.obj] == nil {
 					heap[p.obj] = map[int]any{}
+				}
+				if av, isArr := m.value(fr, x.Val).(bfArr); isArr && p.field == -1 {
+					heap[p.obj] = map[int]any{bfLenKey: bfConst(uint64(av.n), 64, true)}
+					for k, v := range av.el {
+						heap[p.obj][k] = v
+					}
+					continue
 				}
 				heap[p.obj][p.field] = m.value(fr, x.Val)
 			case *ssa.Call:
@@ -661,18 +706,23 @@ func (m *bfMachine) eval(fr *bfFrame, heap bfHeap, v ssa.Value) (any, string, bo
 			if !ok {
 				return bfUnknown{"load through an unmodelled pointer"}, "", false
 			}
-			if p.arr != nil {
-				if p.idx < 0 || p.idx >= len(p.arr.el) {
-					return nil, "index out of range", true
-				}
-				return p.arr.el[p.idx], "", false
-			}
 			if p.obj < 0 {
 				// package-level variables: error values are non-nil sentinels, the rest is unknown
 				if _, isIface := x.Type().Underlying().(*types.Interface); isIface && types.Identical(x.Type(), types.Universe.Lookup("error").Type()) {
 					return bfErr{true}, "", false
 				}
 				return bfUnknown{"package-level variable"}, "", false
+			}
+			if at, isArr := x.Type().Underlying().(*types.Array); isArr && p.field == -1 {
+				if _, has := heap[p.obj][bfLenKey]; has {
+					out := bfArr{n: int(at.Len()), el: map[int]any{}}
+					for k, v := range heap[p.obj] {
+						if k >= 0 {
+							out.el[k] = v
+						}
+					}
+					return out, "", false
+				}
 			}
 			if val, ok := heap[p.obj][p.field]; ok {
 				return val, "", false
@@ -685,7 +735,7 @@ func (m *bfMachine) eval(fr *bfFrame, heap bfHeap, v ssa.Value) (any, string, bo
 				return bfErr{false}, "", false
 			}
 			if _, isSl := x.Type().Underlying().(*types.Slice); isSl {
-				return bfSlice{root: &bfArray{}, lo: 0, hi: 0}, "", false
+				return bfSlice{}, "", false
 			}
 			return bfUnknown{"load of an unset cell"}, "", false
 		case token.NOT:
@@ -740,32 +790,60 @@ func (m *bfMachine) eval(fr *bfFrame, heap bfHeap, v ssa.Value) (any, string, bo
 		}
 		return bfUnknown{"component of an unmodelled tuple"}, "", false
 	case *ssa.Alloc:
+		if at, ok := x.Type().Underlying().(*types.Pointer).Elem().Underlying().(*types.Array); ok {
+			if _, _, isInt := bfWidth(at.Elem()); isInt && at.Len() <= 1<<16 {
+				return bfPtr{obj: m.newArray(heap, int(at.Len())), field: -1}, "", false
+			}
+		}
 		m.nextObj++
 		return bfPtr{obj: m.nextObj, field: -1}, "", false
 	case *ssa.FieldAddr:
-		if p, ok := m.value(fr, x.X).(bfPtr); ok && p.arr == nil && p.obj >= 0 && p.field == -1 {
+		if p, ok := m.value(fr, x.X).(bfPtr); ok && p.obj >= 0 && p.field == -1 {
 			return bfPtr{obj: p.obj, field: x.Field}, "", false
 		}
 		return bfUnknown{"field of an unmodelled object"}, "", false
 	case *ssa.IndexAddr:
 		idx, ok := m.value(fr, x.Index).(bfInt)
-		base := m.value(fr, x.X)
-		sl, isSl := base.(bfSlice)
-		if !isSl {
+		var sl bfSlice
+		switch base := m.value(fr, x.X).(type) {
+		case bfSlice:
+			sl = base
+		case bfPtr: // pointer to an array object
+			if base.obj < 0 || base.field != -1 {
+				return bfUnknown{"element of an unmodelled sequence"}, "", false
+			}
+			if _, has := heap[base.obj][bfLenKey]; !has {
+				return bfUnknown{"element of an unmodelled sequence"}, "", false
+			}
+			n := bfArrayLen(heap, base.obj)
+			sl = bfSlice{obj: base.obj, lo: 0, hi: n, cp: n}
+		default:
 			return bfUnknown{"element of an unmodelled sequence"}, "", false
 		}
 		c, conc := idx.concrete()
 		if !ok || !conc {
-			return nil, fmt.Sprintf("index %s of the input is not determined by the first byte and the length", exprStr(x.Index, exprOpts{})), false
+			return nil, fmt.Sprintf("index %s is not determined by the partition", exprStr(x.Index, exprOpts{})), false
 		}
 		i := idx.sval(c)
 		if i < 0 || i >= int64(sl.hi-sl.lo) {
 			return nil, fmt.Sprintf("index out of range [%d] with length %d", i, sl.hi-sl.lo), true
 		}
-		return bfPtr{arr: sl.root, idx: sl.lo + int(i)}, "", false
+		return bfPtr{obj: sl.obj, field: sl.lo + int(i)}, "", false
 	case *ssa.Slice:
-		sl, isSl := m.value(fr, x.X).(bfSlice)
-		if !isSl {
+		var sl bfSlice
+		switch base := m.value(fr, x.X).(type) {
+		case bfSlice:
+			sl = base
+		case bfPtr:
+			if base.obj < 0 || base.field != -1 {
+				return bfUnknown{"slice of an unmodelled sequence"}, "", false
+			}
+			if _, has := heap[base.obj][bfLenKey]; !has {
+				return bfUnknown{"slice of an unmodelled sequence"}, "", false
+			}
+			n := bfArrayLen(heap, base.obj)
+			sl = bfSlice{obj: base.obj, lo: 0, hi: n, cp: n}
+		default:
 			return bfUnknown{"slice of an unmodelled sequence"}, "", false
 		}
 		get := func(v ssa.Value, def int64) (int64, bool) {
@@ -779,16 +857,48 @@ func (m *bfMachine) eval(fr *bfFrame, heap bfHeap, v ssa.Value) (any, string, bo
 			c, conc := i.concrete()
 			return i.sval(c), conc
 		}
-		capacity := int64(len(sl.root.el) - sl.lo)
+		capacity := int64(sl.cp - sl.lo)
 		lo, ok1 := get(x.Low, 0)
 		hi, ok2 := get(x.High, int64(sl.hi-sl.lo))
-		if !ok1 || !ok2 {
-			return nil, "slice bounds of the input are not determined by the first byte and the length", false
+		mx, ok3 := get(x.Max, capacity)
+		if !ok1 || !ok2 || !ok3 {
+			return nil, "slice bounds are not determined by the partition", false
 		}
-		if lo < 0 || hi < lo || hi > capacity {
+		if lo < 0 || hi < lo || mx < hi || mx > capacity {
 			return nil, fmt.Sprintf("slice bounds out of range [%d:%d] with capacity %d", lo, hi, capacity), true
 		}
-		return bfSlice{root: sl.root, lo: sl.lo + int(lo), hi: sl.lo + int(hi)}, "", false
+		return bfSlice{obj: sl.obj, lo: sl.lo + int(lo), hi: sl.lo + int(hi), cp: sl.lo + int(mx)}, "", false
+	case *ssa.MakeSlice:
+		ln, ok1 := m.value(fr, x.Len).(bfInt)
+		cp, ok2 := m.value(fr, x.Cap).(bfInt)
+		l, c1 := ln.concrete()
+		k, c2 := cp.concrete()
+		if !ok1 || !ok2 || !c1 || !c2 || k > 1<<16 || l > k {
+			return bfUnknown{"make with a size the partition does not determine"}, "", false
+		}
+		if !isByteSlice(x.Type()) {
+			return bfUnknown{"make of a non-byte slice"}, "", false
+		}
+		obj := m.newArray(heap, int(k))
+		return bfSlice{obj: obj, lo: 0, hi: int(l), cp: int(k)}, "", false
+	case *ssa.Index:
+		if av, isArr := m.value(fr, x.X).(bfArr); isArr {
+			idx, ok := m.value(fr, x.Index).(bfInt)
+			k, conc := idx.concrete()
+			if !ok || !conc {
+				return nil, "index of an array value is not determined by the partition", false
+			}
+			if int64(k) < 0 || int(k) >= av.n {
+				return nil, fmt.Sprintf("index out of range [%d] with length %d", k, av.n), true
+			}
+			if v, has := av.el[int(k)]; has {
+				return v, "", false
+			}
+			if w, s, ok := bfWidth(x.Type()); ok {
+				return bfConst(0, w, s), "", false
+			}
+		}
+		return bfUnknown{"element of an unmodelled array value"}, "", false
 	case *ssa.Field:
 		return bfUnknown{"field of a struct value"}, "", false
 	}
@@ -828,10 +938,50 @@ func (m *bfMachine) doCall(fr *bfFrame, heap bfHeap, x *ssa.Call, depth int) []b
 		case "len", "cap":
 			if sl, ok := args[0].(bfSlice); ok {
 				if b.Name() == "cap" {
-					return one(bfConst(uint64(len(sl.root.el)-sl.lo), 64, true))
+					return one(bfConst(uint64(sl.cp-sl.lo), 64, true))
 				}
 				return one(bfConst(uint64(sl.hi-sl.lo), 64, true))
 			}
+		case "append":
+			dst, ok1 := args[0].(bfSlice)
+			src, ok2 := args[1].(bfSlice)
+			if !ok1 || !ok2 || !isByteSlice(x.Call.Args[0].Type()) {
+				break
+			}
+			n, k := dst.hi-dst.lo, src.hi-src.lo
+			out := dst
+			if dst.obj == 0 || dst.hi+k > dst.cp {
+				// grows: a fresh backing array (capacity rounded up as the runtime may)
+				obj := m.newArray(heap, n+k)
+				for i := 0; i < n; i++ {
+					heap[obj][i] = bfElem(heap, dst.obj, dst.lo+i)
+				}
+				out = bfSlice{obj: obj, lo: 0, hi: n, cp: n + k}
+			}
+			vals := make([]bfInt, k)
+			for i := 0; i < k; i++ {
+				vals[i] = bfElem(heap, src.obj, src.lo+i)
+			}
+			for i := 0; i < k; i++ {
+				heap[out.obj][out.hi+i] = vals[i]
+			}
+			out.hi += k
+			return one(out)
+		case "copy":
+			dst, ok1 := args[0].(bfSlice)
+			src, ok2 := args[1].(bfSlice)
+			if !ok1 || !ok2 {
+				break
+			}
+			k := min(dst.hi-dst.lo, src.hi-src.lo)
+			vals := make([]bfInt, k)
+			for i := 0; i < k; i++ {
+				vals[i] = bfElem(heap, src.obj, src.lo+i)
+			}
+			for i := 0; i < k && dst.obj != 0; i++ {
+				heap[dst.obj][dst.lo+i] = vals[i]
+			}
+			return one(bfConst(uint64(k), 64, true))
 		case "min", "max":
 			if a, ok := args[0].(bfInt); ok && len(args) == 2 {
 				if bb, ok := args[1].(bfInt); ok {
@@ -857,6 +1007,26 @@ func (m *bfMachine) doCall(fr *bfFrame, heap bfHeap, x *ssa.Call, depth int) []b
 		return one(bfErr{true})
 	case strings.HasPrefix(full, "math/bits."):
 		if a, ok := args[0].(bfInt); ok {
+			if _, conc := a.concrete(); !conc && strings.HasPrefix(callee.Name(), "Len") || !conc && strings.HasPrefix(callee.Name(), "LeadingZeros") {
+				// the position of the highest set bit is known when the highest bit that can be set is the constant 1
+				top := -1
+				for i := int(a.w) - 1; i >= 0; i-- {
+					if a.b[i].k != 0 {
+						top = i
+						break
+					}
+				}
+				if top >= 0 && a.b[top].k == 1 {
+					w, s, _ := bfWidth(x.Type())
+					width := map[string]int{"Len": 64, "Len8": 8, "Len16": 16, "Len32": 32, "Len64": 64, "LeadingZeros8": 8, "LeadingZeros16": 16, "LeadingZeros32": 32, "LeadingZeros64": 64}[callee.Name()]
+					if width > 0 && strings.HasPrefix(callee.Name(), "Len") {
+						return one(bfConst(uint64(top+1), w, s))
+					}
+					if width > 0 {
+						return one(bfConst(uint64(width-top-1), w, s))
+					}
+				}
+			}
 			if c, conc := a.concrete(); conc {
 				w, s, _ := bfWidth(x.Type())
 				switch callee.Name() {
@@ -882,23 +1052,74 @@ func (m *bfMachine) doCall(fr *bfFrame, heap bfHeap, x *ssa.Call, depth int) []b
 			}
 		}
 		return unknownResult()
-	case strings.HasPrefix(full, "(encoding/binary.littleEndian).Uint") || strings.HasPrefix(full, "(encoding/binary.bigEndian).Uint"):
-		sl, ok := args[len(args)-1].(bfSlice)
+	case strings.HasPrefix(full, "(encoding/binary.littleEndian).") || strings.HasPrefix(full, "(encoding/binary.bigEndian)."):
+		name := callee.Name()
+		if strings.HasPrefix(name, "Append") {
+			nb := map[string]int{"AppendUint16": 2, "AppendUint32": 4, "AppendUint64": 8}[name]
+			dst, ok1 := args[1].(bfSlice)
+			v, ok2 := args[2].(bfInt)
+			if nb == 0 || !ok1 || !ok2 {
+				return unknownResult()
+			}
+			n := dst.hi - dst.lo
+			out := dst
+			if dst.obj == 0 || dst.hi+nb > dst.cp {
+				obj := m.newArray(heap, n+nb)
+				for i := 0; i < n; i++ {
+					heap[obj][i] = bfElem(heap, dst.obj, dst.lo+i)
+				}
+				out = bfSlice{obj: obj, lo: 0, hi: n, cp: n + nb}
+			}
+			for k := 0; k < nb; k++ {
+				pos := k
+				if strings.Contains(full, "bigEndian") {
+					pos = nb - 1 - k
+				}
+				el := bfInt{w: 8}
+				for j := 0; j < 8; j++ {
+					el.b[j] = v.b[8*pos+j]
+				}
+				heap[out.obj][out.hi+k] = el
+			}
+			out.hi += nb
+			return one(out)
+		}
+		put := strings.HasPrefix(name, "Put")
+		nb := map[string]int{"Uint16": 2, "Uint32": 4, "Uint64": 8}[strings.TrimPrefix(name, "Put")]
+		if nb == 0 || len(args) < 2 {
+			return unknownResult()
+		}
+		sl, ok := args[1].(bfSlice)
 		if !ok {
 			return unknownResult()
 		}
-		nb := map[string]int{"Uint16": 2, "Uint32": 4, "Uint64": 8}[callee.Name()]
-		if nb == 0 {
-			return unknownResult()
-		}
 		if sl.hi-sl.lo < nb {
-			return []bfOutcome{{heap: heap, fault: fmt.Sprintf("%s on %d bytes: index out of range", callee.Name(), sl.hi-sl.lo), panics: true}}
+			return []bfOutcome{{heap: heap, fault: fmt.Sprintf("%s on %d bytes: index out of range", name, sl.hi-sl.lo), panics: true}}
+		}
+		big := strings.Contains(full, "bigEndian")
+		if put {
+			v, isInt := args[2].(bfInt)
+			if !isInt {
+				return unknownResult()
+			}
+			for k := 0; k < nb; k++ {
+				pos := k
+				if big {
+					pos = nb - 1 - k
+				}
+				el := bfInt{w: 8}
+				for j := 0; j < 8; j++ {
+					el.b[j] = v.b[8*pos+j]
+				}
+				heap[sl.obj][sl.lo+k] = el
+			}
+			return []bfOutcome{{heap: heap}}
 		}
 		out := bfInt{w: uint8(8 * nb)}
 		for k := 0; k < nb; k++ {
-			el := sl.root.el[sl.lo+k]
+			el := bfElem(heap, sl.obj, sl.lo+k)
 			pos := k
-			if strings.Contains(full, "bigEndian") {
+			if big {
 				pos = nb - 1 - k
 			}
 			for j := 0; j < 8; j++ {
@@ -914,10 +1135,12 @@ func (m *bfMachine) doCall(fr *bfFrame, heap bfHeap, x *ssa.Call, depth int) []b
 	relevant := false
 	for _, a := range args {
 		switch v := a.(type) {
-		case bfSlice:
+		case bfArr:
 			relevant = true
+		case bfSlice:
+			relevant = relevant || v.obj != 0
 		case bfPtr:
-			if v.obj >= 0 || v.arr != nil {
+			if v.obj >= 0 {
 				relevant = true
 			}
 		case bfInt:
@@ -929,4 +1152,153 @@ func (m *bfMachine) doCall(fr *bfFrame, heap bfHeap, x *ssa.Call, depth int) []b
 	}
 	outs := m.call(callee, args, heap, depth+1)
 	return outs
+}
+
+// bfConstResultLen: every return of the module function h yields, as its first result, a byte slice of one and the
+// same length, whatever the (unknown) arguments.
+func bfConstResultLen(h *ssa.Function) (int, bool) {
+	if !bfIsModuleFunc(h) || h.Signature.Results().Len() < 1 || !isByteSlice(h.Signature.Results().At(0).Type()) {
+		return 0, false
+	}
+	m := &bfMachine{maxSteps: 20000}
+	args := make([]any, len(h.Params))
+	for i, p := range h.Params {
+		if w, s, ok := bfWidth(p.Type()); ok {
+			args[i] = bfUnknownInt(w, s)
+		} else if at, isArr := p.Type().Underlying().(*types.Array); isArr {
+			el := map[int]any{}
+			if w, s, ok := bfWidth(at.Elem()); ok {
+				for k := 0; k < int(at.Len()) && k < 1<<12; k++ {
+					el[k] = bfUnknownInt(w, s)
+				}
+			}
+			args[i] = bfArr{n: int(at.Len()), el: el}
+		} else {
+			args[i] = bfUnknown{"parameter"}
+		}
+	}
+	n := -1
+	for _, o := range m.call(h, args, bfHeap{}, 0) {
+		if o.fault != "" || len(o.results) == 0 {
+			return 0, false
+		}
+		sl, ok := o.results[0].(bfSlice)
+		if !ok || n >= 0 && n != sl.hi-sl.lo {
+			return 0, false
+		}
+		n = sl.hi - sl.lo
+	}
+	return n, n >= 0
+}
+
+// bfBlockCodec decides a helper that converts between a block of 8·(1+k) bytes and (one 64-bit value, an array of
+// k 64-bit values): encode = E8(g) ++ E8(w_0) ++ … ++ E8(w_{k-1}), decode = its inverse. Input bit 8b+j is bit j of
+// block byte b, i.e. bit 64i+j' of the i-th 64-bit quantity.
+func bfBlockCodec(h *ssa.Function, encode bool) (ok bool, why string) {
+	if !bfIsModuleFunc(h) {
+		return false, "not a module function with a body"
+	}
+	word := func(i int) bfInt {
+		v := bfInt{w: 64}
+		for j := 0; j < 64; j++ {
+			v.b[j] = bfBit{k: 2, i: uint16(64*i + j)}
+		}
+		return v
+	}
+	m := &bfMachine{maxSteps: 40000}
+	heap := bfHeap{}
+	args := make([]any, len(h.Params))
+	k := -1
+	if encode {
+		gi, wi := -1, -1
+		for i, p := range h.Params {
+			if w, s, isInt := bfWidth(p.Type()); isInt && w == 64 && !s {
+				gi = i
+			} else if at, isArr := p.Type().Underlying().(*types.Array); isArr {
+				wi, k = i, int(at.Len())
+			}
+		}
+		if gi < 0 || wi < 0 || len(h.Params) != 2 {
+			return false, "parameters are not (64-bit value, array of 64-bit values)"
+		}
+		args[gi] = word(0)
+		el := map[int]any{}
+		for i := 0; i < k; i++ {
+			el[i] = word(1 + i)
+		}
+		args[wi] = bfArr{n: k, el: el}
+	} else {
+		if len(h.Params) != 1 || !isByteSlice(h.Params[0].Type()) {
+			return false, "parameter is not one byte slice"
+		}
+		res := h.Signature.Results()
+		for i := 0; i < res.Len(); i++ {
+			if at, isArr := res.At(i).Type().Underlying().(*types.Array); isArr {
+				k = int(at.Len())
+			}
+		}
+		if k < 0 {
+			return false, "no array result"
+		}
+		n := 8 * (1 + k)
+		arr := m.newArray(heap, n)
+		for b := 0; b < n; b++ {
+			v := bfInt{w: 8}
+			for j := 0; j < 8; j++ {
+				v.b[j] = bfBit{k: 2, i: uint16(8*b + j)}
+			}
+			heap[arr][b] = v
+		}
+		args[0] = bfSlice{obj: arr, lo: 0, hi: n, cp: n}
+	}
+	outs := m.call(h, args, heap, 0)
+	if len(outs) == 0 {
+		return false, "no return reached"
+	}
+	for _, o := range outs {
+		if o.fault != "" {
+			return false, o.fault
+		}
+		if encode {
+			sl, isSl := o.results[0].(bfSlice)
+			if !isSl || sl.hi-sl.lo != 8*(1+k) {
+				return false, fmt.Sprintf("the block has %d bytes, expected %d", sl.hi-sl.lo, 8*(1+k))
+			}
+			for b := 0; b < 8*(1+k); b++ {
+				el := bfElem(o.heap, sl.obj, sl.lo+b)
+				for j := 0; j < 8; j++ {
+					if el.b[j] != (bfBit{k: 2, i: uint16(8*b + j)}) {
+						return false, fmt.Sprintf("bit %d of block byte %d is %s", j, b, bfBitString(el.b[j]))
+					}
+				}
+			}
+			continue
+		}
+		var g bfInt
+		var w bfArr
+		haveG, haveW := false, false
+		for _, r := range o.results {
+			switch x := r.(type) {
+			case bfInt:
+				if x.w == 64 {
+					g, haveG = x, true
+				}
+			case bfArr:
+				w, haveW = x, true
+			}
+		}
+		if !haveG || !haveW {
+			return false, "results are not (64-bit value, array)"
+		}
+		if g.b != word(0).b {
+			return false, "the 64-bit result is not E8^-1 of block bytes 0..7: " + g.String()
+		}
+		for i := 0; i < k; i++ {
+			e, _ := w.el[i].(bfInt)
+			if e.b != word(1+i).b {
+				return false, fmt.Sprintf("element %d of the array result is not E8^-1 of block bytes %d..%d: %s", i, 8*(1+i), 8*(1+i)+7, e)
+			}
+		}
+	}
+	return true, ""
 }
